@@ -130,7 +130,10 @@ class RZILTransformer(Transformer):
     def add_op(self, op):
         if op.get_name() in self.parameters:
             raise ValueError(f"Operand {op.get_name()} already defined as parameter.")
-        elif self.il_ops_holder.has_op(op.get_name()):
+        elif self.il_ops_holder.has_op(op.get_name()) and isinstance(
+            self.il_ops_holder.get_op_by_name(op.get_name()), type(op)
+        ):
+            # A local variable of the behaviour may be named like an operation (branch, op_ADD).
             return self.il_ops_holder.get_op_by_name(op.get_name())
 
         num_id = self.il_ops_holder.get_op_count()
